@@ -1,4 +1,5 @@
 import AkVerif.Lemmas.Murmur
+import AkVerif.Gen.MurmurSrc
 /-!
 # C17 — keyed records choose the same partition as the Java client
 
@@ -117,6 +118,78 @@ example : partitionMd none [(0, -1), (1, 0), (2, -1)] 7 = some 1 := by decide
 end AkVerif.Murmur
 
 namespace AkVerif.Murmur
+/-! ## the model is a transcription of the source as it is now (T-extract)
+
+`Gen/MurmurSrc.lean` is regenerated on every run from the *source text* of
+`aiokafka/partitioner.py` (`harness/extract/murmur.py` walks the AST of `murmur2` statement by
+statement after matching its control skeleton).  `expectedProg` is the program the hand-written
+model `pyLoop`/`pyMix`/`pyTail`/`pyFinal`/`partition` was transcribed from; the obligation below is
+that the source still *is* that program — a changed constant, shift, mask, comparison, or a dropped,
+added or reordered statement breaks it (the check then searches for a key on which the Java value
+is missed; a harmless rewrite breaks it too and is reported `no-failing-input-found`).  That
+`expectedProg` means what the model computes is T-diff (all key lengths 0..64 and the random keys
+of the check), not a theorem: unfolding both sides with the 32-bit literals in place sent Lean 4.33's
+definitional-equality check into a non-terminating unfolding of `Nat.mul`/`Nat.land`, see DESIGN.md. -/
+
+def expectedProg : List (String × List (String × String)) := [
+  ("pre", [
+    ("seed", "2538058380"),
+    ("m", "1540483477"),
+    ("r", "24"),
+    ("h", "(seed ^^^ length)"),
+    ("length4", "(length / 4)")]),
+  ("loop", [
+    ("k", "((((b0 &&& 255) + ((b1 &&& 255) <<< 8)) + ((b2 &&& 255) <<< 16)) + ((b3 &&& 255) <<< 24))"),
+    ("k", "(k &&& 4294967295)"),
+    ("k", "(k * m)"),
+    ("k", "(k &&& 4294967295)"),
+    ("k", "(k ^^^ ((k % 4294967296) >>> r))"),
+    ("k", "(k &&& 4294967295)"),
+    ("k", "(k * m)"),
+    ("k", "(k &&& 4294967295)"),
+    ("h", "(h * m)"),
+    ("h", "(h &&& 4294967295)"),
+    ("h", "(h ^^^ k)"),
+    ("h", "(h &&& 4294967295)")]),
+  ("if extra_bytes ≥ 3", [
+    ("h", "(h ^^^ ((t2 &&& 255) <<< 16))"),
+    ("h", "(h &&& 4294967295)")]),
+  ("if extra_bytes ≥ 2", [
+    ("h", "(h ^^^ ((t1 &&& 255) <<< 8))"),
+    ("h", "(h &&& 4294967295)")]),
+  ("if extra_bytes ≥ 1", [
+    ("h", "(h ^^^ (t0 &&& 255))"),
+    ("h", "(h &&& 4294967295)"),
+    ("h", "(h * m)"),
+    ("h", "(h &&& 4294967295)")]),
+  ("post", [
+    ("h", "(h ^^^ ((h % 4294967296) >>> 13))"),
+    ("h", "(h &&& 4294967295)"),
+    ("h", "(h * m)"),
+    ("h", "(h &&& 4294967295)"),
+    ("h", "(h ^^^ ((h % 4294967296) >>> 15))"),
+    ("h", "(h &&& 4294967295)")]),
+  ("call", [
+    ("idx &=", "2147483647")])]
+
+/-- **the source of `murmur2` and of the keyed branch of `DefaultPartitioner.__call__` is, statement
+    for statement, the program the model transcribes** -/
+theorem c17_source_is_model : Gen.Murmur.prog = expectedProg := by decide +kernel
+
+/-- the executable translation of the source, reassembled from the generated pieces along the
+    control skeleton the translator matched (evaluated by nothing yet; kept for the driver) -/
+def srcLoop (h : Nat) : List Nat → Nat × List Nat
+  | b0 :: b1 :: b2 :: b3 :: rest => srcLoop (Gen.Murmur.mix h b0 b1 b2 b3) rest
+  | tail => (h, tail)
+
+def srcMurmur2 (data : List Nat) : Nat :=
+  let (h, t) := srcLoop (Gen.Murmur.init data.length) data
+  Gen.Murmur.final (Gen.Murmur.tail h t.length (t.getD 0 0) (t.getD 1 0) (t.getD 2 0))
+
+/-- the translated source and the model agree on a key with one whole word and a 3-byte tail
+    (a test, labelled as a test) -/
+example : srcMurmur2 [1, 2, 3, 4, 5, 6, 7] = pyMurmur2 [1, 2, 3, 4, 5, 6, 7] := by decide +kernel
+
 /-- link between the executable checker used by the failing-input search and the statement:
     the model's answer always satisfies `holdsKeyed` -/
 theorem model_satisfies_holdsKeyed (key : List (BitVec 8)) (hlen : key.length < 2^32)
